@@ -1,6 +1,7 @@
 package main
 
 import (
+	"context"
 	"fmt"
 	"math"
 	"os"
@@ -44,6 +45,8 @@ type c20Fixture struct {
 	mse     *losses.MSE
 	bce     *losses.BCE
 	ce      *losses.CE
+	// shared tensors that are RESULTS of operations (their private slices may have spare capacity etc.)
+	produced []tensor.Tensor
 }
 
 func c20NewFixture() *c20Fixture {
@@ -62,6 +65,16 @@ func c20NewFixture() *c20Fixture {
 	f.relu, f.lrelu, f.sigmoid, f.tanh = activations.NewRelu(), activations.NewLeakyRelu(nil), activations.NewSigmoid(), activations.NewTanh()
 	f.softmax, _ = activations.NewSoftmax(&activations.SoftmaxConfig{Dim: 0})
 	f.mse, f.bce, f.ce = losses.NewMSE(), losses.NewBCE(), losses.NewCE()
+	r4 := rt.Make(enum.Generic([]int{2, 1, 2, 2}, 1007, 0.5, 2, true), false)
+	r5 := rt.Make(enum.Generic([]int{1, 2, 1, 2, 2}, 1008, 0.5, 2, true), false)
+	for d := 0; d < 4; d++ {
+		f.produced = append(f.produced, must(r4.SumAlong(d)))
+	}
+	for d := 0; d < 5; d++ {
+		f.produced = append(f.produced, must(r5.MaxAlong(d)))
+	}
+	f.produced = append(f.produced, must(f.u.Reshape([]int{4})), must(f.u.Slice([]tensor.Range{{From: 0, To: 1}})), must(f.u.MatMul(f.x)), must(f.u.Transpose()),
+		must(tensor.Concat([]tensor.Tensor{f.u, f.x}, 1)), must(f.u.UnSqueeze(0)), must(f.u.Broadcast([]int{2, 2, 2})), f.u.Scale(2))
 	return f
 }
 
@@ -306,6 +319,41 @@ func c20Bodies() []c20Body {
 			e3 := tensor.BackPropagate(l2)
 			return append(out, obsT(l1, e1), obsT(l2, e2), fmt.Sprint(e3), obsT(m.Gradient(), nil))
 		}},
+		{name: "producedops", run: func(f *c20Fixture, y func()) []string {
+			// shape operations and reducers on shared tensors that are themselves results of operations
+			var out []string
+			for _, t := range f.produced {
+				y()
+				n := len(t.Shape())
+				r1, e1 := t.UnSqueeze(n)
+				r2, e2 := t.UnSqueeze(0)
+				r3, e3 := t.Flatten(0)
+				r4, e4 := t.Reshape([]int{t.NElems()})
+				out = append(out, obsT(r1, e1), obsT(r2, e2), obsT(r3, e3), obsT(r4, e4), fmt.Sprint(t.Sum(), t.Mean(), t.Shape()))
+				if n >= 1 {
+					r5, e5 := t.SumAlong(n - 1)
+					r6, e6 := tensor.Concat([]tensor.Tensor{t, t}, n-1)
+					out = append(out, obsT(r5, e5), obsT(r6, e6))
+				}
+			}
+			return out
+		}},
+		{name: "oppositeorder", run: func(f *c20Fixture, y func()) []string {
+			// the same two shared tensors as in "mathops", in the opposite operand order
+			var out []string
+			for _, k := range []string{"ElMax", "ElMin", "Sub", "Div", "Gt", "Le", "Eq", "Add", "Mul"} {
+				y()
+				r, err := rt.Apply(ref.Op{K: k}, []tensor.Tensor{f.u, f.p})
+				out = append(out, obsT(r, err))
+			}
+			y()
+			c, e1 := tensor.Concat([]tensor.Tensor{f.u, f.p}, 0)
+			y()
+			p, e2 := f.u.Patch([]tensor.Range{{From: 0, To: 1}}, must(f.p.Slice([]tensor.Range{{From: 1, To: 2}})))
+			y()
+			d, e3 := f.u.Dot(f.p)
+			return append(out, obsT(c, e1), obsT(p, e2), obsT(d, e3))
+		}},
 		{name: "mathops", run: func(f *c20Fixture, y func()) []string {
 			var out []string
 			for _, op := range []ref.Op{{K: "Scale", F: -1.5}, {K: "Pow", F: 2}, {K: "Exp"}, {K: "Sin"}, {K: "Cos"}, {K: "Tan"}, {K: "Sinh"}, {K: "Cosh"}, {K: "Tanh"}} {
@@ -321,6 +369,10 @@ func c20Bodies() []c20Body {
 				r, err := rt.Apply(ref.Op{K: k}, []tensor.Tensor{f.p, f.u})
 				out = append(out, obsT(r, err))
 			}
+			y()
+			cc, ec := tensor.Concat([]tensor.Tensor{f.p, f.u}, 0)
+			pp, ep := f.p.Patch([]tensor.Range{{From: 0, To: 1}}, must(f.u.Slice([]tensor.Range{{From: 1, To: 2}})))
+			out = append(out, obsT(cc, ec), obsT(pp, ep))
 			eq, err := f.p.Equals(f.u)
 			return append(out, fmt.Sprint(eq, err))
 		}},
@@ -387,7 +439,7 @@ func c20Scenarios(thorough bool) []c20Scenario {
 		}
 	}
 	if thorough {
-		for _, tr := range [][]int{{0, 1, 6}, {4, 5, 9}, {6, 7, 8}, {2, 3, 14}, {14, 14, 14}, {4, 6, 6}, {12, 13, 8}, {10, 11, 10}} {
+		for _, tr := range [][]int{{0, 1, 6}, {4, 5, 9}, {6, 7, 8}, {2, 3, 16}, {16, 16, 16}, {4, 6, 6}, {14, 15, 8}, {10, 11, 10}, {12, 13, 14}} {
 			out = append(out, c20Scenario{tr})
 		}
 	}
@@ -581,7 +633,7 @@ func c20CheckDraws(sc c20Scenario, bs []c20Body, draws []string, seed uint64) st
 
 func checkC20(c *core.Ctx) {
 	bound := 2
-	var maxExec int64 = 25000
+	var maxExec int64 = 8000
 	if c.Thorough() {
 		bound = 3
 		maxExec = 300000
@@ -650,9 +702,24 @@ func c20Post(tier string, seed int64, m *core.Part) {
 	for _, o := range old {
 		os.Remove(o)
 	}
-	cmd := exec.Command(exe, "racepass", tier)
+	limit := 15 * time.Minute
+	if tier == "thorough" {
+		limit = 45 * time.Minute
+	}
+	ctx, cancel := context.WithTimeout(context.Background(), limit)
+	defer cancel()
+	cmd := exec.CommandContext(ctx, exe, "racepass", tier)
 	cmd.Env = append(os.Environ(), "GORACE=halt_on_error=0 exitcode=0 log_path="+logBase)
 	out, err := cmd.CombinedOutput()
+	if ctx.Err() != nil {
+		// the bodies have no loops that wait: not finishing means goroutines block each other
+		dir := filepath.Join(core.VerifDir, "replays", "C20")
+		os.MkdirAll(dir, 0o755)
+		path := filepath.Join(dir, "race_pass_hang.txt")
+		os.WriteFile(path, out, 0o644)
+		m.Violations = append(m.Violations, core.ViolationRec{CaseID: "racepass", Detail: fmt.Sprintf("the free-running pass (thread bodies on real goroutines) did not finish within %v: goroutines block each other (deadlock). Last progress: %s", limit, lastLine(string(out))), Replay: path})
+		return
+	}
 	if err != nil || !strings.Contains(string(out), "racepass complete") {
 		tail := string(out)
 		if len(tail) > 3000 {
